@@ -44,7 +44,7 @@ func (g *c12Gen) w(format string, a ...interface{}) {
 
 // val: the value stored by the next write — mostly a fresh number, one time
 // in four a value of another kind (a property holding nil is still a property).
-var c12OddVals = []string{"nil", bn.KwFalse, "f()", "0", bn.KwTrue, "\"s\"", "0.5"}
+var c12OddVals = []string{"nil", bn.KwFalse, "f()", "0", bn.KwTrue, "\"s\"", "0.5", "((1 << 62) | 1)", "(~(1 << 63))", "(-0)", "(2 ** 1024)"}
 
 func (g *c12Gen) val() (string, gVal) {
 	if g.pick("valKind", 4) != 1 {
